@@ -6,55 +6,8 @@ use crate::util::{Case, FindingPred};
 pub const TRANS_LAT: f64 = 0.7297276562269663;
 
 pub static SIGNATURES: &[(&str, FindingPred)] = &[
-  ("R5", r5_bsd),
-  ("R5", r5_cone_miss),
   ("R17", r17_tiny_polygon),
 ];
-
-/// The table SMALLER_EDGE2OPEDGE_DIST as it was when R5 was recorded (values observed by bisection on the public
-/// best_starting_depth of the pinned tree). The R5 signature is expressed against THESE values, so that a change of the
-/// table (or of the search) is not hidden behind the known finding.
-pub const R5_TABLE: [f64; 30] = [
-  0.8410686705685088, 0.37723631722170053, 0.18256386461918295, 0.09000432499034523, 0.04470553761855741, 0.02228115704023076,
-  0.011122977211214961, 0.005557125022105058, 0.0027774761500209185, 0.0013884670480328143, 6.941658374603201E-4, 3.4706600585087755E-4,
-  1.7352877579970442E-4, 8.676333125510362E-5, 4.338140148342286E-5, 2.1690634707822447E-5, 1.084530084565172E-5, 5.422646295795749E-6,
-  2.711322116099695E-6, 1.3556608000873442E-6, 6.778303355805395E-7, 3.389151516386149E-7, 1.69457571754776E-7, 8.472878485272006E-8,
-  4.236439215502565E-8, 2.1182195982014308E-8, 1.0591097960375205E-8, 5.295548939447981E-9, 2.647774429917369E-9, 1.3238871881399636E-9];
-
-/// (start depth, r / table[start depth]) according to the recorded table; None if r >= table[0]
-fn r5_ratio(r: f64) -> Option<(usize, f64)> {
-  if !(r < R5_TABLE[0]) { return None; }
-  let d = (0..30).rev().find(|&k| r < R5_TABLE[k]).unwrap_or(0);
-  Some((d, r / R5_TABLE[d]))
-}
-fn r5_zone(r: f64, lon: f64, lat: f64) -> bool {
-  let q = std::f64::consts::FRAC_PI_2;
-  let dl = { let m = lon.rem_euclid(q); m.min(q - m) };
-  // the *cone* (not only its centre) comes within 0.15 rad in longitude of a seam meridian: at coarse depths the radius is
-  // itself larger than that band (first seen at depth 2, r = 0.18 rad, centre 0.18 rad from the seam)
-  let half_width = if lat.abs() + r >= q { std::f64::consts::PI } else { (r.sin() / lat.cos()).min(1.0).asin() };
-  match r5_ratio(r) { Some((_, ratio)) => lat.abs() > TRANS_LAT && dl <= 0.15 + half_width && ratio > 0.95 && ratio < 1.0, None => false }
-}
-
-/// R5 — best_starting_depth table too large at the thin Collignon cells next to polar-cap seams.
-/// C16: sig = containment claim, |lat| > asin(2/3), centre within 0.15 rad (in longitude) of a meridian k.pi/2,
-/// r / table(start depth) in (0.95, 1) for the table as recorded, and the function returned that very start depth.
-fn r5_bsd(sig: &str, c: &Case) -> bool {
-  if sig != "cone-of-radius-r-leaves-the-centre-cell-and-its-neighbours-at-best_starting_depth" { return false; }
-  if c.get("r").is_none() || c.get("start_depth").is_none() { return false; }
-  let r = c.gf("r");
-  match r5_ratio(r) { Some((d, _)) => d as u64 == c.gu("start_depth") && r5_zone(r, c.gf("lon"), c.gf("lat")), None => false }
-}
-
-/// R5 seen through the coverage queries (C05, C13 circular case): a miss whose missed cell lies outside the 3x3 block
-/// of the start depth, for a cone in the R5 zone (same predicate on the recorded table).
-fn r5_cone_miss(sig: &str, c: &Case) -> bool {
-  let r = if sig == "cone-coverage-misses-a-cell-containing-a-point-of-the-cone" { c.get("r").map(|_| c.gf("r")) }
-    else if sig == "circular-ellipse-misses-a-cell-touched-by-the-cone" { c.get("a").map(|_| c.gf("a")) } else { None };
-  let r = match r { Some(r) => r, None => return false };
-  if c.get("in_start_block").is_none() { return false; }
-  !c.gb("in_start_block") && r5_zone(r, c.gf("lon"), c.gf("lat"))
-}
 
 /// R17 — polygon predicates built on un-normalised cross products: ill-conditioned (eps / R^2) for polygons whose
 /// bounding radius is below 1e-6 rad. Any of the listed C12 polygon violations (mon=poly) with R < 1e-6 rad.
